@@ -155,7 +155,10 @@ func (f *Frame) callStatic(v ssa.Value, fn *ssa.Function, argVals []ssa.Value, a
 		f.setResults(v, []T{f.pureApp(name, fn.Signature, args)})
 		return
 	}
-	if con != nil && !con.Inline {
+	// a contract that only claims automatic checks (no postcondition, no frame) says nothing a caller could use:
+	// small helpers under such a contract are still inlined at call sites
+	bare := con != nil && len(con.Ensures) == 0 && len(con.Assumes) == 0 && !con.HasAssigns && !con.Abstract && len(con.Ghost) == 0 && len(con.Decreases) == 0
+	if con != nil && !con.Inline && !(bare && fn.Blocks != nil && f.depth < maxInlineDepth && f.autoInline(fn)) {
 		res := f.applyContract(v, con, fn, args, pos, name)
 		f.setResults(v, res)
 		return
@@ -815,6 +818,8 @@ func (f *Frame) readSortSafe(name string) (s Sort) {
 		return ArrSort(SInt, sortFromSuffix(name[5:]))
 	case name == "held":
 		return ArrSort(SInt, SBool)
+	case name == "BUF_len":
+		return ArrSort(SInt, SInt)
 	case strings.HasPrefix(name, "G_"):
 		if obj := f.p.pkg.Types.Scope().Lookup(name[2:]); obj != nil {
 			return f.p.sortOf(obj.Type())
